@@ -141,9 +141,9 @@ func verifDescribe(e expr.Expression) (kind, param string) {
 		}
 		return "Function", name[strings.LastIndex(name, ".")+1:]
 	case *expr.IsExpression:
-		return "Is", ""
+		return "Is", fmt.Sprintf("%+v", n.Type)
 	case *expr.AsExpression:
-		return "As", ""
+		return "As", fmt.Sprintf("%+v", n.Type)
 	case *expr.BooleanExpression:
 		return "Boolean", string(n.Op)
 	case *expr.ComparisonExpression:
@@ -225,6 +225,25 @@ func verifValues(c system.Collection) []string {
 	return vals
 }
 
+// verifTypes names the proto message type of every item of a short collection ("" for an item that is no message),
+// so that the trace specification can judge type tests from the google/fhir descriptors rather than from this package.
+func verifTypes(c system.Collection) []string {
+	tys := make([]string, 0, len(c))
+	if len(c) > 8 {
+		return tys
+	}
+	for _, it := range c {
+		s := ""
+		if m, ok := it.(proto.Message); ok {
+			if rv := reflect.ValueOf(m); !(rv.Kind() == reflect.Ptr && rv.IsNil()) {
+				s = string(m.ProtoReflect().Descriptor().FullName())
+			}
+		}
+		tys = append(tys, s)
+	}
+	return tys
+}
+
 // verifClass is the operand class of three-valued logic: Empty, True, False, a Single other item, or Many items.
 func verifClass(c system.Collection) string {
 	switch {
@@ -293,11 +312,12 @@ func (n *verifNode) Evaluate(ctx *expr.Context, input system.Collection) (system
 	}()
 	out, err := n.inner.Evaluate(ctx, input)
 	ina, inha := ev.verifItems(input)
-	rec := map[string]any{"e": "E", "ev": ev.id, "d": depth, "k": kind, "ok": err == nil, "ina": ina, "inha": inha, "out": []string{}, "cls": "E", "hi": false, "iv": 0, "outv": []string{}}
+	rec := map[string]any{"e": "E", "ev": ev.id, "d": depth, "k": kind, "ok": err == nil, "ina": ina, "inha": inha, "out": []string{}, "cls": "E", "hi": false, "iv": 0, "outv": []string{}, "oty": []string{}}
 	if err == nil {
 		rec["out"], _ = ev.verifItems(out)
 		rec["cls"] = verifClass(out)
 		rec["outv"] = verifValues(out)
+		rec["oty"] = verifTypes(out)
 		if len(out) == 1 {
 			if v, e2 := system.From(out[0]); e2 == nil {
 				if i, ok := v.(system.Integer); ok {
